@@ -109,6 +109,9 @@ func (x *gg) clauseTerm() *rt.Term {
 		func() *rt.Term { return rt.C("retract", rt.C("d", x.val(true))) },
 		func() *rt.Term { return rt.C("=", x.v(), x.val(false)) },
 		func() *rt.Term { return rt.C(",", rt.C("e", x.v(), x.v()), rt.C("asserta", rt.C("d", x.val(false)))) },
+		// a body that is a disjunction: one clause for clause/2 and retract/1, however it is compiled
+		func() *rt.Term { v := x.v(); return rt.C(";", rt.C("=", v, x.val(false)), rt.C("=", v, x.val(false))) },
+		func() *rt.Term { return rt.C(";", rt.C("d", x.v()), rt.C(";", rt.C("e", x.v(), x.v()), rt.A("true"))) },
 	}
 	return rt.C(":-", h, bodies[x.n(0, len(bodies)-1, "body")]())
 }
